@@ -14,6 +14,9 @@ Decided clauses:
   R18.4 the installed source is sticky: the implementation pointer is private to randombytes.c and
         assigned only by randombytes_set_implementation (the caller's value) and - when still NULL -
         by randombytes_init_if_needed (the default); no other path replaces or clears it.
+  R18.5 a generated secret does not depend on what the output buffer held before: in every function that draws a constant number
+        of bytes into an output parameter, every returning path draws, and nothing reads the buffer (load, or call receiving
+        it) before the first draw - a `while (!valid(r)) draw(r)` loop returns the caller's stale bytes when they happen to be valid.
 NOT decided: that min == 2^32 mod n (arithmetic); bit-exact replay.
 """
 import re
@@ -103,6 +106,34 @@ def run(ctx, chk):
                        detail=why or "%s bytes into %s" % (T.show(size, f), T.show(dest, f)), path=None if ok else p,
                        key="R18.1 %s coverage" % f.sname)
     chk.floor("R18.1", "randombytes_buf call sites outside randombytes/", n, 40)
+    # ---- R18.5 the generated secret does not depend on what the output buffer held -----------------------------------------
+    n5 = 0
+    for f in gens:
+        ps = [p for p in cm.paths(prog, f) if p.kind == "ret"]
+        outs = set()
+        for p in ps:
+            for e in p.calls("randombytes_buf", "randombytes"):
+                if e.args[0][0] == "arg" and e.args[1][0] == "c":
+                    outs.add(e.args[0])
+        for OUT in sorted(outs):
+            pn = f.params[OUT[1]]["name"]
+            for p in ps:
+                if p.may_return_nonzero() and not p.may_return_zero() and f.ret != "void":
+                    continue                # an error exit before the draw produces no secret
+                draws = [e for e in p.calls("randombytes_buf", "randombytes") if e.args[0] == OUT]
+                first = draws[0].idx if draws else len(p.events)
+                stale = [e for e in p.events[:first]
+                         if (e.kind == "load" and T.root(e.addr) == OUT) or
+                            (e.kind == "call" and any(isinstance(a, tuple) and T.root(a) == OUT for a in e.args))]
+                n5 += 1
+                ok = bool(draws) and not stale
+                chk.ob("R18.5", f, "the random output is drawn on every returning path, and nothing reads the buffer before the first draw", ok,
+                       loc=f.loc(stale[0].iid) if stale else f.loc(p.end_iid), path=None if ok else p,
+                       detail="" if ok else ("%s returns without requesting any byte for %s" % (f.sname, pn) if not draws else
+                                             "%s is examined at %s before the first randombytes_buf(): the result depends on the caller's "
+                                             "stale buffer content" % (pn, f.loc(stale[0].iid))),
+                       key="R18.5 %s %s" % (f.sname, pn))
+    chk.floor("R18.5", "returning paths of functions that draw into an output parameter", n5, 12)
 
     # ---- R18.2 ----------------------------------------------------------------------------------------
     nsite = 0
